@@ -380,4 +380,95 @@ theorem decode_overrun (n : List Bytes) (c post : Bytes) (hn : ∀ x ∈ n, WfCo
     have := tlv_length t v
     exact decodeLoop_overrun_step buf f _ extra _ t _ _ _ p1 p2 (by omega) (by omega)
 
+
+/-! ### `Name.decode(buf, offset)`, `0 ≤ offset`: decoding AT an offset is decoding the suffix -/
+theorem pySlice_drop {α} (buf : List α) (k a b : Nat) : pySlice (buf.drop k) a b = pySlice buf (k + a) (k + b) := by
+  unfold pySlice
+  rw [List.take_drop, List.drop_drop]
+
+theorem unpackAt_drop (buf : Bytes) (k a n : Nat) : unpackAt (buf.drop k) a n = unpackAt buf (k + a) n := by
+  unfold unpackAt
+  rw [pySlice_drop, Nat.add_assoc]
+
+theorem parseTlNum_drop (buf : Bytes) (k off : Nat) : parseTlNum (buf.drop k) off = parseTlNum buf (k + off) := by
+  unfold parseTlNum
+  rw [List.getElem?_drop]
+  simp only [unpackAt_drop, Nat.add_assoc]
+
+theorem exc_ok_bind {α β} (x : α) (f : α → Except PyErr β) : (Except.ok x >>= f) = f x := rfl
+
+/-- the result of the loop on the suffix, from the result on the whole buffer: the offset reached is counted from `k` -/
+def unshift (k : Nat) (r : List Bytes × Nat) : List Bytes × Nat := (r.1, r.2 - k)
+
+theorem decodeLoop_drop (buf : Bytes) (k : Nat) : ∀ (fuel off length : Nat) (acc : List Bytes),
+    Name.decodeLoop (buf.drop k) fuel off length acc = (Name.decodeLoop buf fuel (k + off) length acc).map (unshift k) := by
+  intro fuel
+  induction fuel with
+  | zero => intro off length acc; rfl
+  | succ f ih =>
+    intro off length acc
+    rw [Name.decodeLoop, Name.decodeLoop]
+    by_cases hz : length = 0
+    · rw [if_pos hz, if_pos hz]
+      show Except.ok _ = Except.ok _
+      simp [unshift]
+    · rw [if_neg hz, if_neg hz, parseTlNum_drop]
+      cases h1 : parseTlNum buf (k + off) with
+      | error e => rfl
+      | ok p1 =>
+        obtain ⟨t, st⟩ := p1
+        simp only [exc_ok_bind]
+        rw [parseTlNum_drop, ← Nat.add_assoc]
+        cases h2 : parseTlNum buf (k + off + st) with
+        | error e => rfl
+        | ok p2 =>
+          obtain ⟨lc, sl⟩ := p2
+          simp only [exc_ok_bind]
+          have e : k + off + st + sl + lc - (k + off) = off + st + sl + lc - off := by omega
+          rw [e]
+          by_cases hov : off + st + sl + lc - off > length
+          · rw [if_pos hov, if_pos hov]; rfl
+          · rw [if_neg hov, if_neg hov, ih, pySlice_drop]
+            have e2 : k + (off + st + sl + lc) = k + off + st + sl + lc := by omega
+            rw [e2]
+
+/-- **decoding at an offset is decoding the suffix**, EVERY buffer and EVERY offset `0 ≤ off` (no hypothesis): the same
+    components (slices of the same bytes), the same number of bytes consumed, the same exception.  In particular
+    `off ≥ len(buf)` is the `IndexError` of decoding the empty string (`decodeAt_outside`). -/
+theorem decodeAt_eq_drop (buf : Bytes) (off : Nat) : Name.decodeAt buf off = Name.decode (buf.drop off) := by
+  simp only [Name.decodeAt, Name.decode]
+  rw [parseTlNum_drop, Nat.add_zero]
+  cases h1 : parseTlNum buf off with
+  | error e => rfl
+  | ok p1 =>
+    obtain ⟨typ, st⟩ := p1
+    simp only [exc_ok_bind]
+    by_cases ht : typ = Name.TYPE_NAME
+    · rw [if_neg (by simpa using ht), if_neg (by simpa using ht), parseTlNum_drop]
+      cases h2 : parseTlNum buf (off + st) with
+      | error e => rfl
+      | ok p2 =>
+        obtain ⟨length, sl⟩ := p2
+        simp only [exc_ok_bind]
+        have e : (List.drop off buf).length - (st + sl) = buf.length - (off + st + sl) := by
+          simp only [List.length_drop]; omega
+        rw [e]
+        by_cases hov : length > buf.length - (off + st + sl)
+        · rw [if_pos hov, if_pos hov]
+        · rw [if_neg hov, if_neg hov, decodeLoop_drop, ← Nat.add_assoc]
+          cases Name.decodeLoop buf (length + 1) (off + st + sl) length [] <;> rfl
+    · rw [if_pos ht, if_pos ht]
+
+theorem decodeAt_zero (buf : Bytes) : Name.decodeAt buf 0 = Name.decode buf := by
+  rw [decodeAt_eq_drop]; rfl
+
+/-- an offset at or past the end of the buffer: `IndexError` (raised by the first `parse_tl_num`) -/
+theorem decodeAt_outside (buf : Bytes) (off : Nat) (h : buf.length ≤ off) : Name.decodeAt buf off = .error .indexError := by
+  rw [decodeAt_eq_drop, List.drop_of_length_le h]; rfl
+
+/-- bytes BEFORE the offset do not matter, and the encoding of a well-formed name placed at an offset is read back:
+    `Name.decode(pre + Name.encode(n) + post, len(pre))` = `(n, len(Name.encode(n)))` -/
+theorem decodeAt_append (pre buf : Bytes) : Name.decodeAt (pre ++ buf) pre.length = Name.decode buf := by
+  rw [decodeAt_eq_drop, List.drop_left]
+
 end Ndn
